@@ -76,7 +76,7 @@ def ty_sig(t):
     """type string used in function signatures (selectors)"""
     k = t[0]
     if k == "dec":
-        return "fixed168x10"
+        return "int168"       # this compiler exposes decimal as int168 in signatures
     if k == "sarr":
         return f"{ty_sig(t[1])}[{t[2]}]"
     if k == "darr":
